@@ -8,6 +8,7 @@ parameter text the model accepted.
 import datetime
 import decimal
 import itertools
+import os
 import re
 import sys
 import uuid
@@ -156,35 +157,13 @@ def w(s):
     return s.encode("utf-8").decode("latin-1")
 
 
-def run(ctx):
-    tier = ctx.tier
-    tables, paths, cs = cases(tier)
-    K = dict(Patterns=tuple(pat_tla(p) for p in PATTERNS), Tables=tuple(tables),
-             PathList=tuple(tuple(p) for p in paths), Cases=frozenset(cs))
-    ctx.bounds = {"patterns": len(PATTERNS), "tables": len(tables), "paths": len(paths), "cases": len(cs)}
-    ctx.rule = ("every (route table, path) case of Routing.tla replayed on real Routers on WSGI and ASGI; non-trivial = "
-                "the path is matched by a non-first route, or rejected by a route although the path has the route's "
-                "number of '/' (near miss), or has several valid splits")
-    ctx.assumptions = ["parameter names are p1..pn", "WSGI hands non-ASCII path text over as Latin-1-decoded UTF-8",
-                       "integers beyond Python's 4300-digit conversion limit are out of scope here (C12)"]
-    wd = tlc.workdir_for("c08")
-    tlc.sany(wd + "/Routing.tla")
-    tlc.write_mc(wd, "MC_Routing", "Routing", constants=K,
-                 cfg_lines=["SPECIFICATION Spec", "CHECK_DEADLOCK FALSE", "INVARIANT FirstMatching", "INVARIANT SplitsSound"])
-    res = tlc.run_tlc(wd, "MC_Routing", dump=True, heap="6g")
-    ctx.add_tlc("Routing", res, ctx.bounds)
-    if res.violated:
-        raise common.MachineryError("Routing.tla: " + tlc.describe(res))
-    tlc.check_coverage(res, ["TryRoute", "NoRoute"])
-    g = graph.Graph.load(res.dot)
-    routers = {}
-    accepted_texts = set()
-    n = 0
+def replay(ctx, g, tables, paths, routers, accepted_texts, state):
     for nid in g.terminal():
         st = g.state(nid)
         if st["chosen"] == 0:
             raise common.MachineryError("undecided terminal state")
-        n += 1
+        state["n"] += 1
+        n = state["n"]
         table = tables[st["tab"] - 1]
         sym_path = paths[st["pth"] - 1]
         path = conc(sym_path)
@@ -247,6 +226,40 @@ def run(ctx):
             ctx.nontriv((st["tab"], st["pth"]))
         if n in (1, 500, 5000):
             ctx.sample({"case": case, "chosen": st["chosen"], "splits": [[conc(t) for t in sp] for sp in st["splits"]]})
+
+
+
+def run(ctx):
+    tier = ctx.tier
+    tables, paths, cs = cases(tier)
+    ctx.bounds = {"patterns": len(PATTERNS), "tables": len(tables), "paths": len(paths), "cases": len(cs)}
+    ctx.rule = ("every (route table, path) case of Routing.tla replayed on real Routers on WSGI and ASGI; non-trivial = "
+                "the path is matched by a non-first route, or rejected by a route although the path has the route's "
+                "number of '/' (near miss), or has several valid splits")
+    ctx.assumptions = ["parameter names are p1..pn", "WSGI hands non-ASCII path text over as Latin-1-decoded UTF-8",
+                       "integers beyond Python's 4300-digit conversion limit are out of scope here (C12)"]
+    wd = tlc.workdir_for("c08")
+    tlc.sany(wd + "/Routing.tla")
+    routers = {}
+    accepted_texts = set()
+    state = {"n": 0}
+    cs = sorted(cs)
+    SLICE = 40000      # TLC slows down badly on one very large constant set of cases: one run per slice
+    for off in range(0, len(cs), SLICE):
+        K = dict(Patterns=tuple(pat_tla(p) for p in PATTERNS), Tables=tuple(tables),
+                 PathList=tuple(tuple(p) for p in paths), Cases=frozenset(cs[off:off + SLICE]))
+        name = "MC_Routing_%d" % (off // SLICE)
+        tlc.write_mc(wd, name, "Routing", constants=K,
+                     cfg_lines=["SPECIFICATION Spec", "CHECK_DEADLOCK FALSE", "INVARIANT FirstMatching", "INVARIANT SplitsSound"])
+        res = tlc.run_tlc(wd, name, dump=True, heap="6g")
+        ctx.add_tlc("Routing[%d..%d)" % (off, min(off + SLICE, len(cs))), res, dict(ctx.bounds, cases=len(K["Cases"])))
+        if res.violated:
+            raise common.MachineryError("Routing.tla: " + tlc.describe(res))
+        tlc.check_coverage(res, ["TryRoute", "NoRoute"])
+        g = graph.Graph.load(res.dot)
+        replay(ctx, g, tables, paths, routers, accepted_texts, state)
+        del g
+        os.unlink(res.dot)
 
     # convertor round trip on every accepted parameter text (+ a few decimals with trailing zeros)
     from baize.routing import CONVERTOR_TYPES
